@@ -75,7 +75,7 @@ Definition a_plain_words : list text :=
 
 Definition kw_leaf (n : node) : option text :=
   match n with
-  | Leaf ty v => if ttype_eqb ty T_Keyword then Some (upper v) else None
+  | Leaf ty v => if ttype_eqb ty T_Keyword then Some (knorm v) else None
   | Grp _ _ _ => None
   end.
 
